@@ -42,6 +42,9 @@ def correspond(ctx, C):
                 sites[site] = sites.get(site, 0) + 1
                 unres = any(t.startswith(("unresolvedReferences", "invalidRef"))
                             for x in go.get("runs", []) for t in S.rule_tags(x.get("errors", []) or []))
+                # … or the model sees a reference the definitions table does not know (the stop-early run may end at the
+                # schema pass, before the reference stage says so)
+                unres = unres or (isinstance(r.get("m"), dict) and r["m"].get("viewClosed") is False)
                 k = next((f for f in known if any(s_ in site for s_ in f.get("site_match", []))
                           and (not f.get("panic_match") or f["panic_match"] in str(run.get("panic", "")))
                           and (not f.get("needs_unresolved_ref") or unres)
